@@ -74,7 +74,8 @@ func (q *queue) len() uint64 {
 func (q *queue) push(ctx context.Context) (EvictFunc, <-chan core.Listener) {
 	q.mu.Lock()
 	defer q.mu.Unlock()
-	releaseChan := make(chan core.Listener)
+	// buffered so that handing a listener over never depends on the waiter having reached its select
+	releaseChan := make(chan core.Listener, 1)
 
 	e := &queueElement{ctx: ctx, releaseChan: releaseChan}
 
@@ -269,14 +270,21 @@ func NewQueueBlockingLimiterWithDefaults(
 }
 
 func (l *QueueBlockingLimiter) tryAcquire(ctx context.Context) core.Listener {
+	// The limiter mutex is held from the attempt until the caller is in the backlog so that
+	// a completion's unblock, which holds it too, cannot miss a caller that is between its
+	// failed attempt and its push.
+	l.mu.Lock()
+
 	// Try to acquire a token and return immediately if successful
 	listener, ok := l.delegate.Acquire(ctx)
 	if ok && listener != nil {
+		l.mu.Unlock()
 		return listener
 	}
 
 	// Restrict backlog size so the queue doesn't grow unbounded during an outage
 	if l.backlog.len() >= l.maxBacklogSize {
+		l.mu.Unlock()
 		return nil
 	}
 
@@ -284,6 +292,7 @@ func (l *QueueBlockingLimiter) tryAcquire(ctx context.Context) core.Listener {
 	// operation.  Holders will be unblocked in LIFO or FIFO order depending on whatever
 	// ordering was configured when backlog was instantiated
 	evict, eventReleaseChan := l.backlog.push(ctx)
+	l.mu.Unlock()
 	verifPoint("queue.afterPush")
 
 	// We're using a nil chan so that we
@@ -313,13 +322,25 @@ func (l *QueueBlockingLimiter) tryAcquire(ctx context.Context) core.Listener {
 		return listener
 	case <-backlogTimeout:
 		// Remove the holder from the backlog.
-		evict()
-		return nil
+		return l.giveUp(evict, eventReleaseChan)
 	case <-ctxDone:
 		// The context has been cancelled before `maxBacklogTimeout`
 		// could elapse. Since this context no longer needs a listener
 		// we evict it from the backlog to free up space.
-		evict()
+		return l.giveUp(evict, eventReleaseChan)
+	}
+}
+
+// giveUp removes the caller from the backlog under the limiter mutex. A listener that a
+// concurrent unblock handed over before the eviction is returned rather than lost.
+func (l *QueueBlockingLimiter) giveUp(evict EvictFunc, eventReleaseChan <-chan core.Listener) core.Listener {
+	l.mu.Lock()
+	evict()
+	l.mu.Unlock()
+	select {
+	case listener := <-eventReleaseChan:
+		return listener
+	default:
 		return nil
 	}
 }
